@@ -54,7 +54,18 @@ def gen_history(rng, hid, length):
                 nextfd += 1
             continue
         fd = rng.choice(fds)
-        if r < 0.40:
+        many = rng.random() < 0.12         # long scatter/gather vectors (short pieces): 17..60 segments
+        if many and r < 0.72:
+            n = rng.choice([17, 18, 31, 32, 33, 48, 60])
+            if r < 0.50:
+                segs = [[rng.randrange(256) for _ in range(rng.choice([0, 1, 1, 2, 3]))] for _ in range(n)]
+                calls.append({"call": "write", "abi": abi(), "fd": fd, "segs": segs} if r < 0.25 else
+                             {"call": "pwrite", "abi": abi(), "fd": fd, "offset": rng.choice([0, 1, 2, 7, 30, 2 ** 32]), "segs": segs})
+            else:
+                lens = [rng.choice([0, 1, 1, 2, 3]) for _ in range(n)]
+                calls.append({"call": "read", "abi": abi(), "fd": fd, "lens": lens} if r < 0.61 else
+                             {"call": "pread", "abi": abi(), "fd": fd, "offset": rng.choice([0, 1, 3, 10]), "lens": lens})
+        elif r < 0.40:
             segs = [[rng.randrange(256) for _ in range(rng.choice([0, 1, 2, 5, 9]))] for _ in range(rng.choice([0, 1, 1, 2, 3]))]
             calls.append({"call": "write", "abi": abi(), "fd": fd, "segs": segs})
         elif r < 0.50:
@@ -111,7 +122,8 @@ def run_all(v, hists, wd, tier, pid="C12", ls_after=("open", "write", "pwrite"))
                 poisoned = True
                 break
             if m["errno"] == 999:
-                if c["call"] in ("seek", "tell", "read", "pread", "filestat", "pathstat", "readlink", "fdstat", "readdir", "sync", "datasync", "prestat", "prestatname"):
+                # (an unspecified seek - on a directory - moves a position the model does not track, and later errors depend on it)
+                if c["call"] in ("tell", "read", "pread", "filestat", "pathstat", "readlink", "fdstat", "readdir", "sync", "datasync", "prestat", "prestatname"):
                     continue             # the model leaves this call unspecified; it cannot have changed anything the model tracks
                 break                    # unspecified and possibly state-changing: the rest of the history is not comparable
             why = wasi.compare_call(c, m, a, sb) if kind == "call" else wasi.compare_ls(m, a)
